@@ -140,15 +140,28 @@ func (r *runner) runSession(s session) M {
 		steps, peak := 0, 0
 		var lastOp bytecode.OpCode
 		lastIP := -1
-		trace := [][]int{}
-		vm.VerifStep = func(ip int, instr bytecode.Type, sp, frames, closures int, _ value.Type) {
+		trace := [][]any{}
+		vm.VerifStepTop = nil
+		if s.Trace {
+			// the operand a stack source would fetch, as a signature, joins the event recorded just before
+			vm.VerifStepTop = func(top value.Type, ok bool) {
+				if n := len(trace); n > 0 && len(trace[n-1]) == 5 {
+					sig := "-"
+					if ok {
+						sig = valSig(top)
+					}
+					trace[n-1] = append(trace[n-1], sig)
+				}
+			}
+		}
+		vm.VerifStep = func(ip int, instr bytecode.Type, sp, frames, closures int, tmp value.Type) {
 			steps++
 			if sp > peak {
 				peak = sp
 			}
 			lastOp, lastIP = instr.OpCode(), ip
 			if s.Trace && len(trace) < 40000 {
-				trace = append(trace, []int{ip, sp, frames, closures})
+				trace = append(trace, []any{ip, sp, frames, closures, valSig(tmp)})
 			}
 			if steps > budget {
 				panic(budgetExceeded{"vm"})
